@@ -185,6 +185,51 @@ func (p *Program) TypesPkg(rel string) *types.Package {
 // Func finds a package-level function or method: Func("requestmanager", "RequestManager", "terminateRequest")
 // (recv "" for plain functions).  Pointer/value receiver is resolved automatically.
 func (p *Program) Func(rel, recv, name string) *ssa.Function {
+	if f := p.funcExact(rel, recv, name); f != nil {
+		return f
+	}
+	// renamed? the unique function of the same package/receiver that the baseline does not know and
+	// that has exactly the old one's signature
+	if !TheBaseline.loaded || strings.Contains(rel, ".") {
+		return nil
+	}
+	want, ok := TheBaseline.funcs[rel+"|"+recv+"|"+name]
+	if !ok {
+		return nil
+	}
+	var cands []*ssa.Function
+	for _, f := range p.SrcFuncs() {
+		if f.Parent() != nil || f.Synthetic != "" || relOf(FuncPkgPath(f)) != rel {
+			continue
+		}
+		r := ""
+		if rv := f.Signature.Recv(); rv != nil {
+			t := rv.Type()
+			if pt, ok := t.(*types.Pointer); ok {
+				t = pt.Elem()
+			}
+			if n, ok := t.(*types.Named); ok {
+				r = n.Obj().Name()
+			}
+		}
+		if r != recv {
+			continue
+		}
+		if _, known := TheBaseline.funcs[rel+"|"+recv+"|"+f.Name()]; known {
+			continue
+		}
+		if types.TypeString(f.Signature, qual) == want {
+			cands = append(cands, f)
+		}
+	}
+	if len(cands) == 1 {
+		noteRename(fmt.Sprintf("function %s %s.%s is taken to be the renamed %s (same receiver, same signature, unknown to the baseline)", rel, recv, cands[0].Name(), name))
+		return cands[0]
+	}
+	return nil
+}
+
+func (p *Program) funcExact(rel, recv, name string) *ssa.Function {
 	sp := p.Pkg(rel)
 	if sp == nil {
 		return nil
@@ -242,7 +287,7 @@ func (p *Program) Field(rel, typ, field string) *types.Var {
 			return st.Field(i)
 		}
 	}
-	return nil
+	return p.renamedField(rel, typ, field, st)
 }
 
 // SrcFuncs returns every function with a body (including anonymous functions)
